@@ -855,7 +855,14 @@ int main(int argc, char** argv) {
 	g_wide = A.geti("wide", 1) != 0;
 	g_file_level = (int) A.geti("filelevel", thorough ? 2 : 1);
 	g_file_dev = (int) A.geti("filedev", 1);
-	g_chain_bound = (int) A.geti("chainbound", thorough ? 1 : 0);
+	// deviation bound inside the linked chains (one member varies): C01 1 / 2, C07 1 / 1, others 0 / 1 (measured cost:
+	// C02 runs every history on every chain file)
+	{
+		int cb = thorough ? 1 : 0;
+		if (A.prop == "C01") cb = thorough ? 2 : 1;
+		if (A.prop == "C07") cb = 1;
+		g_chain_bound = (int) A.geti("chainbound", cb);
+	}
 	if (A.prop == "C07") {
 		g_bound = (int) A.geti("bound", thorough ? 2 : 1);
 		g_file_dev = (int) A.geti("filedev", thorough ? 1 : 0);
